@@ -30,5 +30,10 @@ int main(int argc, char** argv)
 		if (!(fromFile == fromText) || fromFile.ok() != fromText.ok()) { printf("REPRODUCED Json::read of a %d-byte file differs from Json::decode of the same text\n", (int)t.size()); return 1; }
 		printf("OK %s\n", fromFile.ok() ? "value" : "invalid"); return 0;
 	}
+	if (cmd == "intbuf") {            // an 11-character int written when the output string is exactly at capacity (ASan sees a write past it)
+		for (int pre = 0; pre < 2300; pre++) { Var v = Var::ARRAY; String s; for (int i = 0; i < pre; i++) s << 'x'; v << s << (-2147483647 - 1);
+			String t = Json::encode(v); Var back = Json::decode(t); if (!(back == v)) { printf("REPRODUCED round trip with a %d-character prefix\n", pre); return 1; } }
+		printf("OK\n"); return 0;
+	}
 	return 2;
 }
